@@ -266,6 +266,18 @@ def run_case(R, level, op, args, community="public", ctx_name=b"", ctx_engine=b"
         if via[0] == "configure":
             c.configure(credentials=w.creds)
     case["via"] = list(via) if via else None
+    if args.get("refused_configure") and (via is None or via[0] == "configure"):
+        # the path after a refused call: a permanent configure() with a mistyped setting
+        # (refused with TypeError, handled by the caller) that ALSO names credentials of
+        # another family changes nothing
+        try:
+            c.configure(credentials=rig.initial_credentials(("configure", args["refused_configure"]), community), no_such_setting=3)
+            refused = False
+        except TypeError:
+            refused = True
+        if not refused:
+            return  # not refused: then the credentials were changed on request; nothing to hold it against
+        R.mon["ops_after_a_refused_configure"] += 1
     saved_now = env.CLOCK.now
     saved = {}
     if rid is not None:
@@ -470,6 +482,8 @@ def run(R):
                 # same community string / same user and passwords: only the family differs
                 other = {"v1": "v2c", "v2c": "v1"}.get(level) or rng.choice([lv for lv in rig.V3_LEVELS if lv != level])
                 via = (via[0], other, "same")
+        if i % 7 == 3:
+            args["refused_configure"] = rng.choice([lv for lv in ("v1", "v2c", "v3-noauth", "v3-md5", "v3-sha1-priv") if lv != level])
         run_case(R, level, op, args, community, ctx_name, ctx_engine, rid, rid_patched, via=via)
     # behavioural id check on an operation that cannot fail for other reasons
     if R.shard == 0 or R.tier == "thorough":
